@@ -182,14 +182,14 @@ func registerResolver() {
 	})
 	c14 := func(inF, outF, k, errPos int64) Shard {
 		fn := []string{"positional", "struct", "*struct", "**struct", "struct mixed with another parameter", "empty"}
-		return sh("HarnessC14", fmt.Sprintf("inputs %s, results %s, %d entries each, error position %d (0 none,1 final,2 first)", fn[inF], fn[outF], k, errPos), 0, inF, outF, k, errPos)
+		return sh("HarnessC14", fmt.Sprintf("inputs %s, results %s, %d entries each, error position %d (0 none, 1 final, 2 first, 3 two trailing errors)", fn[inF], fn[outF], k, errPos), 0, inF, outF, k, errPos)
 	}
 	c14s := func(kind int64) Shard {
 		return sh("HarnessC14Static", fmt.Sprintf("static catalogue entry %d", kind), 0, kind)
 	}
 	register(&PropSpec{
 		ID: "C14", Pkg: "argmapper",
-		Quick: []Shard{c14(1, 5, 2, 0), c14(2, 0, 1, 1), c14(0, 1, 2, 1), c14(5, 2, 2, 0), c14(0, 0, 2, 2), c14(3, 5, 1, 0), c14(4, 5, 1, 0), c14(5, 3, 1, 1), c14(5, 4, 1, 0),
+		Quick: []Shard{c14(1, 5, 2, 0), c14(2, 0, 1, 1), c14(0, 1, 2, 1), c14(5, 2, 2, 0), c14(0, 0, 2, 2), c14(3, 5, 1, 0), c14(4, 5, 1, 0), c14(5, 3, 1, 1), c14(5, 4, 1, 0), c14(0, 0, 1, 3), c14(5, 5, 0, 3),
 			c14s(0), c14s(1), c14s(2), c14s(3), c14s(4)},
 		Thorough: []Shard{c14(1, 5, 3, 0), c14(2, 0, 2, 1), c14(0, 1, 3, 1), c14(5, 2, 3, 0), c14(0, 0, 3, 2), c14(3, 5, 1, 0), c14(4, 5, 1, 0), c14(5, 3, 1, 1), c14(5, 4, 1, 0), c14(1, 2, 2, 1), c14(2, 1, 2, 0),
 			c14s(0), c14s(1), c14s(2), c14s(3), c14s(4)},
@@ -218,8 +218,8 @@ func registerResolver() {
 	})
 	register(&PropSpec{
 		ID: "C16", Pkg: "argmapper",
-		Quick:    []Shard{sh("HarnessC16", "3 symbolic options (Named/NamedSubtype/TypedSubtype/nil value, symbolic spellings) split symbolically into defaults, first call, second call", 0, 3, 0), sh("HarnessC16", "3 symbolic options incl. nil option", 0, 3, 1), sh("HarnessC16Perm", "permutations of 3 exact options", 0, 3, 0), sh("HarnessC16Perm", "permutations of 3 exact options + distractor converter", 0, 3, 1)},
-		Thorough: []Shard{sh("HarnessC16", "4 symbolic options split symbolically into defaults, first call, second call", 0, 4, 0), sh("HarnessC16", "4 symbolic options incl. nil option", 0, 4, 1), sh("HarnessC16Perm", "permutations of 4 exact options", 0, 4, 0), sh("HarnessC16Perm", "permutations of 4 exact options + distractor converter", 0, 4, 1)},
+		Quick:    []Shard{sh("HarnessC16", "3 symbolic options (Named/NamedSubtype/TypedSubtype with symbolic spellings and subtypes, nil value) split symbolically into defaults, first call, second call", 0, 3, 0, 0), sh("HarnessC16", "2 symbolic options after three fixed base defaults (override, then rely on the default again)", 0, 2, 0, 1), sh("HarnessC16", "2 symbolic options incl. nil option, after base defaults", 0, 2, 1, 1), sh("HarnessC16Perm", "permutations of 3 exact options", 0, 3, 0), sh("HarnessC16Perm", "permutations of 3 exact options + distractor converter", 0, 3, 1)},
+		Thorough: []Shard{sh("HarnessC16", "4 symbolic options split symbolically into defaults, first call, second call", 0, 4, 0, 0), sh("HarnessC16", "3 symbolic options after three fixed base defaults", 0, 3, 0, 1), sh("HarnessC16", "3 symbolic options incl. nil option", 0, 3, 1, 0), sh("HarnessC16Perm", "permutations of 4 exact options", 0, 4, 0), sh("HarnessC16Perm", "permutations of 4 exact options + distractor converter", 0, 4, 1)},
 		Covers:   []string{"C16.call-returned", "C16.values-checked", "C16.default-applies", "C16.call-overrides-or-supplies", "C16.nil-option-checked", "C16.permutation-checked", "C16.second-call-checked"},
 		Bounds:   []string{"option lists of <=3 (quick) / 4 (thorough) options, each symbolically Named / NamedSubtype (spellings symbolic) / Typed / TypedSubtype / nil value / nil option, split symbolically into construction defaults, the options of a first call and the options of a second call on the same Func; field-name spelling symbolic", "all permutations of 3/4 exactly matching options, with and without a distractor converter"},
 		Outside:  []string{"longer option lists", "non-ASCII names"},
@@ -228,15 +228,15 @@ func registerResolver() {
 		CVQuick:  2, CVThor: 4,
 	})
 	c17 := func(k, final, form int64) Shard {
-		return sh("HarnessC17", fmt.Sprintf("%d results + final slot %d (0 none, 1 error, 2 concrete error type), form %d (0 positional, 1 marker struct)", k, final, form), 0, k, final, form)
+		return sh("HarnessC17", fmt.Sprintf("%d results + final slot %d (0 none, 1 error, 2 concrete error type), form %d (0 positional, 1 marker struct, 2 pointer to marker struct with symbolic nil-ness)", k, final, form), 0, k, final, form)
 	}
 	register(&PropSpec{
 		ID: "C17", Pkg: "argmapper",
-		Quick: []Shard{c17(0, 0, 0), c17(0, 1, 0), c17(1, 1, 0), c17(2, 1, 0), c17(2, 0, 0), c17(2, 2, 0), c17(3, 1, 0), c17(2, 1, 1), c17(1, 0, 1), c17(0, 2, 0),
+		Quick: []Shard{c17(0, 0, 0), c17(0, 1, 0), c17(1, 1, 0), c17(2, 1, 0), c17(2, 0, 0), c17(2, 2, 0), c17(3, 1, 0), c17(2, 1, 1), c17(1, 0, 1), c17(0, 2, 0), c17(2, 1, 2), c17(1, 0, 2),
 			sh("HarnessC17Fail", "resolution failure: missing argument", 0, 0), sh("HarnessC17Fail", "resolution failure: nil option", 0, 1), sh("HarnessC17Fail", "resolution failure: converter input missing", 0, 2), sh("HarnessC17Fail", "failing converter", 0, 3),
 			sh("HarnessC17Once", "run-once function (struct form) used as a converter, then called directly twice", 0, 1), sh("HarnessC17Once", "run-once function (*struct form) used as a converter, then called directly twice", 0, 2),
 			sh("HarnessC17Once", "run-once function (positional form) used as a converter, then called directly twice", 0, 0), sh("HarnessC17Once", "run-once function (built form) used as a converter, then called directly twice", 0, 3)},
-		Covers:   []string{"C17.accessors-checked", "C17.final-error-checked", "C17.non-final-error-checked", "C17.concrete-error-type-is-an-output", "C17.resolution-failure-checked", "C17.once-checked"},
+		Covers:   []string{"C17.accessors-checked", "C17.final-error-checked", "C17.non-final-error-checked", "C17.concrete-error-type-is-an-output", "C17.resolution-failure-checked", "C17.once-checked", "C17.nil-pointer-struct-checked"},
 		Bounds:   []string{"all result arities 0..3 with result kinds drawn symbolically from {P0,P1,error,P2} (distinct), final slot none / error / concrete error type, nil-ness of every error slot symbolic; positional and marker-struct results", "four resolution-failure scenarios"},
 		Outside:  []string{"more than 3 results before the final slot", "result lists repeating a type"},
 		Assume:   common,
